@@ -3,7 +3,7 @@ From LV Require Import Base FS FSFacts LayerShared.
 
 Inductive c11_op := OpDeleteLayer | OpRdr | OpRecreate    (* OpRecreate: BuildContext::uncached_layer on the layer *)
                   | OpReadLayer                            (* shared::read_layer through the hook *)
-                  | OpWriteLayer | OpReplaceTypes | OpReplaceMetadata.   (* shared::write_layer / replace_layer_types through the hooks *)
+                  | OpWriteLayer | OpReplaceTypes | OpReplaceMetadata | OpKeep.   (* OpKeep: BuildContext::cached_layer, callbacks keep; shared::write_layer / replace_layer_types through the hooks *)
 Inductive c11_res := ROk | RErrno (e : errno) | ROther.
 
 Record case := mkCase {
@@ -18,7 +18,7 @@ Record case := mkCase {
 (* what the call may touch *)
 Definition owned_of (c : case) : path -> bool :=
   match c_op c with
-  | OpDeleteLayer | OpRecreate => owned spec_sbom_suffixes (c_layers c) (c_name c)
+  | OpDeleteLayer | OpRecreate | OpKeep => owned spec_sbom_suffixes (c_layers c) (c_name c)
   | OpRdr => is_prefix (c_layers c ++ [c_name c])
   | OpReadLayer | OpReplaceTypes | OpReplaceMetadata => path_eqb (c_layers c ++ [toml_name (c_name c)])
   | OpWriteLayer => fun q => path_eqb (c_layers c ++ [c_name c]) q || path_eqb (c_layers c ++ [toml_name (c_name c)]) q
@@ -32,7 +32,7 @@ Definition spec_run (c : case) : fs * result errno unit :=
   | OpDeleteLayer | OpRecreate => delete_layer true true spec_sbom_suffixes (c_layers c) (c_name c) (c_pre c)
   | OpRdr => remove_dir_recursively true (rdr_fuel (c_pre c)) (c_layers c ++ [c_name c]) (c_pre c)
   | OpReadLayer => (c_pre c, Ok tt)      (* judged by read_effect_ok below *)
-  | OpWriteLayer | OpReplaceTypes | OpReplaceMetadata => (c_pre c, Ok tt)      (* call-level comparison only: C11Agree *)
+  | OpWriteLayer | OpReplaceTypes | OpReplaceMetadata | OpKeep => (c_pre c, Ok tt)      (* call-level comparison only: C11Agree *)
   end.
 
 (* the conclusion of c11_read_layer_effect, read off the observed directories: nothing changed, or the
@@ -51,7 +51,7 @@ Definition read_effect_ok (c : case) : bool :=
    not fail where the specification succeeds *)
 Definition holds (c : case) : bool :=
   match c_op c with
-  | OpWriteLayer | OpReplaceTypes | OpReplaceMetadata =>
+  | OpWriteLayer | OpReplaceTypes | OpReplaceMetadata | OpKeep =>
       (* fs::write follows a link standing at <name>.toml (in the library these functions run after delete_layer
          or read_layer, which leave no link there): the frame is judged where the path is not a link *)
       match pget (c_layers c ++ [toml_name (c_name c)]) (c_pre c) with
